@@ -309,11 +309,9 @@ func buildCase(cs caseSpec, thorough bool) *Scenario {
 			sc.SmallUniverse = true
 		}
 	case "window":
+		// no in-place restart of A here: a fresh Blockchain instance has an empty filter cache and
+		// would hide a stale cached window (restarted COPIES of A and B are still compared)
 		sc = windowScenario(cs.NewState)
-		sc.RestartMode = 1
-		if cs.NewState {
-			sc.RestartMode = 2
-		}
 	}
 	if sc == nil {
 		return nil
